@@ -1303,9 +1303,8 @@ func toString(v interface{}) string {
 
 	// A pointer to a number, string, slice or map prints what it points to;
 	// formatting the pointer itself would print a memory address
-	if rv := reflect.ValueOf(v); rv.Kind() == reflect.Ptr && !rv.IsNil() &&
-		rv.Elem().Kind() != reflect.Struct && rv.Elem().Kind() != reflect.Ptr && rv.Elem().CanInterface() {
-		return toString(rv.Elem().Interface())
+	if target, ok := pointerTarget(v); ok {
+		return toString(target)
 	}
 
 	return fmt.Sprintf("%v", v)
@@ -1378,6 +1377,26 @@ func toFloat64(v interface{}) (float64, error) {
 	}
 
 	return 0, fmt.Errorf("cannot convert %T to float64", v)
+}
+
+// pointerTarget follows a pointer, or a chain of pointers, to a number, string,
+// slice or map and returns what is found there. Nil pointers, pointers to
+// structs and chains longer than anything written by hand are left alone.
+func pointerTarget(v interface{}) (interface{}, bool) {
+	rv := reflect.ValueOf(v)
+	if rv.Kind() != reflect.Ptr {
+		return nil, false
+	}
+	for depth := 0; rv.Kind() == reflect.Ptr; depth++ {
+		if rv.IsNil() || depth == 8 {
+			return nil, false
+		}
+		rv = rv.Elem()
+	}
+	if rv.Kind() == reflect.Struct || !rv.CanInterface() {
+		return nil, false
+	}
+	return rv.Interface(), true
 }
 
 // Helper function to convert PHP/Twig date format to Go date format
@@ -2466,9 +2485,8 @@ func (e *CoreExtension) filterFormat(value interface{}, args ...interface{}) (in
 	// points to; fmt would print its memory address
 	fargs := make([]interface{}, len(args))
 	for i, arg := range args {
-		if rv := reflect.ValueOf(arg); rv.Kind() == reflect.Ptr && !rv.IsNil() &&
-			rv.Elem().Kind() != reflect.Struct && rv.Elem().Kind() != reflect.Ptr && rv.Elem().CanInterface() {
-			arg = rv.Elem().Interface()
+		if target, ok := pointerTarget(arg); ok {
+			arg = target
 		}
 		fargs[i] = arg
 	}
@@ -2517,7 +2535,7 @@ func (e *CoreExtension) filterSpaceless(value interface{}, args ...interface{}) 
 	}
 
 	// Convert to string if not already
-	str := fmt.Sprintf("%v", value)
+	str := toString(value)
 	if str == "" {
 		return "", nil
 	}
